@@ -4,6 +4,14 @@ import json
 
 CHECKS = {
 
+ "C09": dict(
+  engine="E2+E4",
+  technique="bounded exhaustive enumeration of (design, map-iteration-order deviation) pairs on generators instrumented at check time (every range over a map under a controller, one fresh process per deviation); same-process and fresh-process repetition; explicit-state BFS over output-directory histories with the real goa CLI",
+  text="From the current tree every `for ... range m` over a map in the packages linked into a generator is found by type-checking (58 sites) and rewritten through go build -overlay so that a controller chooses the key order. For every selected design a baseline (all maps ascending) is compared byte for byte with one fresh generator process (gen + example) per reached site x order: every permutation for <= 4 keys, reverse/rotate/swap beyond, and two orders that change between visits; thorough adds all designs of all E2 families and pairs of hasher/openapi sites. Every design is also generated twice in one process and in 2-5 uninstrumented processes. The real goa CLI (built from /repo) is driven through ALL histories of length <= 4 (thorough 5) over {gen, example, edit an example file, delete an example file, delete a gen file, add a stray file} on three designs (one with -o), states deduplicated by directory digest: after gen, gen/ must equal the fresh-directory output; example must leave bytes and mtime of every existing file untouched and recreate only missing files; gen never touches example files.",
+  design_ref="DESIGN.md section 3 C09, section 2 E4-c",
+  note="External protoc is replaced by a deterministic stand-in in the generator workers; gRPC is not run through the CLI; 9 static sites cannot be driven with two keys (dead code, one-entry tables; listed in the evidence); bound 2 is 'both reversed' only; plugins are not covered.",
+ ),
+
  "C13": dict(
   engine="E1",
   technique="exhaustive enumeration of type graphs (constructor grammar with cycles, all member permutations, metadata/validation decorations, all 8 hash flag combinations) on the real Dup/DupAtt/Hash/Equal; map-iteration-order seam by go build -overlay rewriting of expr/hasher.go; reference canonical forms and reflective snapshots",
@@ -50,11 +58,11 @@ CHECKS = {
   note="Strings whose validity is genuinely ambiguous under the named standard are neutral (listed in the evidence assumptions); 4+ threads only at bound 2; weaker-than-SC effects are subsumed by the happens-before oracle.",
  ),
  "C20": dict(
-  engine="E3",
-  technique="stateless DFS over thread interleavings (iterative preemption bounding) of the real runtime helpers under a cooperative scheduler, happens-before race oracle + differential per-thread oracle",
-  text="The goa runtime packages (pkg, http, http/middleware, middleware) are instrumented at check time from /repo's working tree (go build -overlay: sync/atomic shims as scheduling points, automatic read/write hooks on package-level variables, closure-captured variables, receiver fields and their map/slice elements). 2-3 virtual threads run 1-2 operations each (ErrorEncoder closures, ResponseEncoder, Muxer ServeHTTP/Vars/Handle/Use, request pipeline, ValidatePattern, samplers, MergeErrors); every schedule with <= 2 preemptions (thorough: bound 3 and all interleavings by sleep sets) is executed to completion and checked for happens-before data races, deadlock, and that each thread's observable result equals its result when run alone.",
+  engine="E3+E2",
+  technique="stateless DFS over thread interleavings (iterative preemption bounding; all interleavings by sleep sets in thorough) of the real runtime helpers AND of generated servers/clients under a cooperative scheduler, happens-before race oracle + differential per-request oracle",
+  text="goa's runtime packages (pkg, http, http/middleware, middleware) and, for family B, every generated service/views/server/client package of a dedicated corpus are instrumented at check time from /repo's working tree (go build -overlay: sync/atomic shims as scheduling points, automatic read/write hooks on package-level variables, closure-captured variables, receiver fields and their map/slice elements). Family A: 2-3 virtual threads x 1-2 operations on ErrorEncoder closures, ResponseEncoder, Muxer ServeHTTP/Vars/Handle/Use, a request pipeline, ValidatePattern, samplers, MergeErrors. Family B: on 6 (thorough 9) freshly mounted generated servers covering every handler shape (path+query+header+body payloads with validations, views, content negotiation, declared/undeclared errors) two threads each issue one request through the generated client over the in-memory wire: 186 request pairs (thorough: all 1575 pairs in ALL interleavings, 98 triples). Every schedule with <= 2 preemptions is executed to completion and checked for happens-before data races, deadlock, panics, and that every request's status, headers, body, received payload and decoded client result equal its sequential reference (nothing leaks between in-flight requests). A free-running -race pass with 64 goroutines is recorded, not deciding.",
   design_ref="DESIGN.md section 3 C20, section 2 E3/E4",
-  note="Family A (runtime helpers) only in this revision; generated servers under the scheduler (family B) are exercised by a free-running -race pass, not decided. chi, net/http, encoding/* run as opaque steps and are trusted; blocking inside uninstrumented primitives (io.Pipe, channels, WebSocket I/O) is not explored.",
+  note="More than 3 threads only in the auxiliary -race pass; streaming/WebSocket/SkipResponseWriter paths and gRPC are not explored (blocking in uninstrumented primitives); chi, net/http, encoding/* and the harness run as opaque steps; writes that uninstrumented code performs through a handed-off pointer are seen by the differential oracle and the -race pass only.",
  ),
 
  "C05": dict(
